@@ -722,6 +722,14 @@ func Run(c *common.Ctx) error {
 	if err := releaseDuringCommit(c, c.Rng.Fork()); err != nil {
 		return err
 	}
+	if err := acquireWhileBehind(c, c.Rng.Fork()); err != nil {
+		return err
+	}
+	for jm := 0; jm < 2; jm++ {
+		if err := holderCommitsAfterTTL(c, c.Rng.Fork(), jm); err != nil {
+			return err
+		}
+	}
 	idx := 0
 	// every fixed script in both journal modes
 	for _, wal := range []bool{false, true} {
